@@ -196,7 +196,10 @@ def decide_build(pid, spec, b, tier, oc, seed):
     have = set(units.PARTS[pn]['mod'] for pn in units.BUILDS[bname]['parts']) | {'vbase'}
     mods = [m for m in (b.get('modules') or []) if any(h == m or h.startswith(m + '::') for h in have)] or None
     b = dict(b, modules=mods)
-    r = vrun.run_verus(path, modules=mods, threads=int(os.environ.get('VERIF_THREADS', '8')))
+    wide = units.BUILDS[bname].get('usize_bytes', 8) != 8
+    # `global size_of usize == 4` is checked by rustc's final erasure pass against the 64-bit HOST: skip that pass only
+    xtra = ['--no-erasure-check'] if wide else None
+    r = vrun.run_verus(path, modules=mods, threads=int(os.environ.get('VERIF_THREADS', '8')), extra=xtra)
     oc.cmds.append(r.cmd)
     a = vrun.analyse(text, regions, r)
     if r.json is None:
@@ -294,7 +297,7 @@ def decide_build(pid, spec, b, tier, oc, seed):
             cpath = os.path.join(WORK, '%s_%s_canary.rs' % (pid, bname))
             open(cpath, 'w').write(ctext)
             cr = vrun.run_verus(cpath, modules=b.get('modules'), threads=int(os.environ.get('VERIF_THREADS', '8')),
-                                multiple_errors=1)
+                                multiple_errors=1, extra=xtra)
             ca = vrun.analyse(ctext, regions, cr)
             failed_lines = set()
             for e in ca['errors']:
